@@ -123,7 +123,11 @@ func (s *solver) beginPath(tb *termTable) {
 	s.hardPC = false
 	s.raw("(reset)")
 	s.raw("(set-option :print-success false)")
-	s.raw(fmt.Sprintf("(set-option :timeout %d)", s.timeoutMs))
+	primary := s.timeoutMs
+	if primary > 3000 {
+		primary = 3000 // portfolio: short cap on the incremental solver, full time-out on the fallbacks
+	}
+	s.raw(fmt.Sprintf("(set-option :timeout %d)", primary))
 }
 
 func (s *solver) raw(line string) {
@@ -537,14 +541,22 @@ func (s *solver) fallback(extras []*term, wantModel bool, evals []*term, hard bo
 		cmd.Stdin = strings.NewReader(b.pre + script.String())
 		outb, _ := cmd.Output()
 		out := string(outb)
-		if strings.Contains(out, "(error") {
-			continue
-		}
 		lines := strings.SplitN(strings.TrimSpace(out), "\n", 2)
 		if len(lines) == 0 {
 			continue
 		}
-		switch strings.TrimSpace(lines[0]) {
+		first := strings.TrimSpace(lines[0])
+		if first == "unsat" {
+			// (the trailing get-value legitimately errors after unsat)
+			if len(lines) > 1 && strings.Contains(lines[1], "(error") && !strings.Contains(lines[1], "model") {
+				continue
+			}
+			return resUnsat, nil, nil, b.name, true
+		}
+		if strings.Contains(out, "(error") {
+			continue
+		}
+		switch first {
 		case "unsat":
 			return resUnsat, nil, nil, b.name, true
 		case "sat":
@@ -567,6 +579,10 @@ func (s *solver) fallback(extras []*term, wantModel bool, evals []*term, hard bo
 			}
 			return resSat, m, vals[len(names):], b.name, true
 		}
+	}
+	if dir := os.Getenv("GOSYM_DUMP_UNKNOWN"); dir != "" {
+		os.MkdirAll(dir, 0o755)
+		os.WriteFile(fmt.Sprintf("%s/unknown_%d_%d.smt2", dir, os.Getpid(), time.Now().UnixNano()), script.Bytes(), 0o644)
 	}
 	return resUnknown, nil, nil, "none", false
 }
